@@ -181,7 +181,8 @@ fn stream_transparency(ctx: &Ctx, t: &mut Tape<'_>, r: &mut Report) -> CheckResu
     let f = &suite.streams[t.idx(suite.streams.len())];
     let bs = suite.info.bs;
     let key = gen_key(t, suite);
-    let iv = gen_iv(t, bs);
+    let kc = (suite.keyed)(&key);
+    let iv = gen_stream_iv(t, f.kind(), bs, kc.as_ref(), suite.info.has_dec);
     let n = 3 + t.idx(5 * bs);
     let ct = tape::gen_bytes(t, n);
     let j = t.idx(n);
@@ -244,7 +245,8 @@ fn keystream_independence(ctx: &Ctx, t: &mut Tape<'_>, r: &mut Report) -> CheckR
     let f = &suite.streams[t.idx(suite.streams.len())];
     let bs = suite.info.bs;
     let key = gen_key(t, suite);
-    let iv = gen_iv(t, bs);
+    let kc = (suite.keyed)(&key);
+    let iv = gen_stream_iv(t, f.kind(), bs, kc.as_ref(), suite.info.has_dec);
     let n = 1 + t.idx(5 * bs);
     let m1 = tape::gen_bytes(t, n);
     let m2 = tape::gen_bytes(t, n);
